@@ -24,6 +24,30 @@ pub fn run(ctx: &mut Ctx) {
 
 fn units_lo(u: usize) -> usize { if u <= 1 { 0 } else { 1usize << (3 * (u - 1)) } }
 
+// The run list of one `fit` case: `fill` units of short codes, the run under test (gap of `gu` units, length of `ru`
+// units), two or three short runs; None when the combination does not fit into the length domain.
+pub fn fit_runs(fill: usize, gu: usize, ru: usize, rng: &mut Rng) -> Option<(Vec<(usize, usize)>, usize)> {
+    if fill == 1 || gu + ru > 43 || (gu == 22 && ru == 22) { return None; }
+    let mut runs: Vec<(usize, usize)> = Vec::new();
+    let mut pos = 0usize;
+    let mut left = fill;
+    // `fill` units of one- and two-unit codes.
+    if left % 2 == 1 { let gap = 8 + rng.below(56); let len = 1 + rng.below(8); runs.push((pos + gap, len)); pos += gap + len; left -= 3; }
+    while left > 0 { let gap = if runs.is_empty() && rng.chance(1, 2) { 0 } else { 1 + rng.below(7) }; let len = 1 + rng.below(8); runs.push((pos + gap, len)); pos += gap + len; left -= 2; }
+    // The run under test: smallest values of its classes when they are large (so that the total stays in range).
+    let gap = if gu >= 19 { units_lo(gu) } else { std::cmp::max(1, gen::value_with_units(rng, gu)) };
+    let gap = if runs.is_empty() && gu == 1 && rng.chance(1, 2) { 0 } else { std::cmp::max(gap, if gu == 1 { 1 } else { units_lo(gu) }) };
+    let lenm1 = if ru >= 19 { units_lo(ru) } else { gen::value_with_units(rng, ru) };
+    let start = pos.checked_add(gap)?;
+    let end = start.checked_add(lenm1).and_then(|x| x.checked_add(1))?;
+    if end > MAX_REQUIRED_LEN - (1 << 20) { return None; }
+    runs.push((start, lenm1 + 1));
+    pos = end;
+    for _ in 0..(2 + rng.below(2)) { let gap = 1 + rng.below(60); let len = 1 + rng.below(60); runs.push((pos + gap, len)); pos += gap + len; }
+    let n = pos + rng.below(3);
+    Some((runs, n))
+}
+
 // Every way a run can meet the end of a 64-unit block: the block already holds `fill` code units, the next run needs
 // `gu` units for its gap and `ru` units for its length (1..=22 each: all code lengths), and two or three short runs follow.
 // The decision "does it still fit" is made once per run, so every (fill, gu + ru) pair is a case of its own.
@@ -40,23 +64,7 @@ fn fit(ctx: &mut Ctx) {
                 if gu + ru > 43 || (gu == 22 && ru == 22) { continue; }
                 if !ctx.begin_case() { continue; }
                 let mut rng = ctx.rng(0xC3_F000 + index);
-                let mut runs: Vec<(usize, usize)> = Vec::new();
-                let mut pos = 0usize;
-                let mut left = fill;
-                // `fill` units of one- and two-unit codes.
-                if left % 2 == 1 { let gap = 8 + rng.below(56); let len = 1 + rng.below(8); runs.push((pos + gap, len)); pos += gap + len; left -= 3; }
-                while left > 0 { let gap = if runs.is_empty() && rng.chance(1, 2) { 0 } else { 1 + rng.below(7) }; let len = 1 + rng.below(8); runs.push((pos + gap, len)); pos += gap + len; left -= 2; }
-                // The run under test: smallest values of its classes when they are large (so that the total stays in range).
-                let gap = if gu >= 19 { units_lo(gu) } else { std::cmp::max(1, gen::value_with_units(&mut rng, gu)) };
-                let gap = if runs.is_empty() && gu == 1 && rng.chance(1, 2) { 0 } else { std::cmp::max(gap, if gu == 1 { 1 } else { units_lo(gu) }) };
-                let lenm1 = if ru >= 19 { units_lo(ru) } else { gen::value_with_units(&mut rng, ru) };
-                let start = match pos.checked_add(gap) { Some(x) => x, None => continue };
-                let end = match start.checked_add(lenm1).and_then(|x| x.checked_add(1)) { Some(x) => x, None => continue };
-                if end > MAX_REQUIRED_LEN - (1 << 20) { continue; }
-                runs.push((start, lenm1 + 1));
-                pos = end;
-                for _ in 0..(2 + rng.below(2)) { let gap = 1 + rng.below(60); let len = 1 + rng.below(60); runs.push((pos + gap, len)); pos += gap + len; }
-                let n = pos + rng.below(3);
+                let (runs, n) = match fit_runs(fill, gu, ru, &mut rng) { Some(x) => x, None => continue };
                 let m = RunModel::new(n, &runs);
                 let (block_starts, _, _) = simulate_blocks(&m.runs);
                 let args = run_args(&m, &block_starts, &mut rng, 60);
